@@ -42,7 +42,8 @@ Definition decode_config (x : sx) : option config :=
 Definition fs_row := (str * str * N * str)%type.
 Definition decode_fs_row (x : sx) : option fs_row :=
   match x with
-  | L [B k; B v; I kind; B i] => Some (k, v, Z.to_N kind, i)
+  | L [k; v; I kind; i] =>
+      obind (asStr k) (fun k => obind (asStr v) (fun v => obind (asStr i) (fun i => Some (k, v, Z.to_N kind, i))))
   | _ => None
   end.
 Fixpoint table_find_system (t : list fs_row) (k v : str) : fsres :=
